@@ -1,3 +1,6 @@
+#[cfg(kanal_verif)]
+#[allow(unused_imports)]
+use crate::verif::{core, std};
 use crate::{
     backoff::{self, get_parallelism},
     pointer::KanalPtr,
@@ -300,6 +303,10 @@ impl<T> From<*const Signal<T>> for SignalTerminator<T> {
 }
 
 impl<T> SignalTerminator<T> {
+    #[cfg(kanal_verif)]
+    pub(crate) fn verif_addr(&self) -> usize {
+        self.0 as usize
+    }
     pub(crate) unsafe fn send(self, data: T) {
         Signal::send(self.0, data)
     }
